@@ -428,7 +428,11 @@ fn describe_dir(dir: &Path, args: Vec<i128>, canon: &Canon, tpl: &Templates, n_f
 }
 
 fn address(limbs: [u64; 4]) -> qp_wormhole_inputs::BytesDigest {
-    qp_wormhole_inputs::BytesDigest::try_from(limbs_digest(&limbs)).expect("address limbs below the field order")
+    // a configured address may be ANY 32 bytes (BytesDigest::new_unchecked is public): limbs >= p are kept as they are
+    match qp_wormhole_inputs::BytesDigest::try_from(limbs_digest(&limbs)) {
+        Ok(d) => d,
+        Err(_) => qp_wormhole_inputs::BytesDigest::new_unchecked(limbs_digest(&limbs)),
+    }
 }
 
 /// run dir loader `which` (0..4) on `dir`
@@ -1008,9 +1012,23 @@ fn c18() {
         addrs.push([P - 1, P - 1, P - 1, P - 1]);
         addrs.push(rand_addr(&mut r));
     }
+    // an address with a small first limb and, as a verify-only context, its NON-CANONICAL byte twin (first limb + p):
+    // other bytes, same field elements.  A comparison carried out on field elements instead of bytes would let the
+    // twin's aggregator accept proofs made for the canonical address.
+    let small = {
+        let mut a = rand_addr(&mut r);
+        a[0] = 5;
+        a
+    };
+    addrs.push(small);
     // contexts that never prove (only verify); every context costs a full PublicBatchAggregator::new (two recursive
     // circuit rebuilds), so the quick tier keeps one: the seeded address with its last limb + 1
     let mut ctx_addrs = addrs.clone();
+    {
+        let mut twin = small;
+        twin[0] = 5 + P;
+        ctx_addrs.push(twin);
+    }
     {
         let mut a = addrs[1];
         a[3] = (a[3] + 1) % P;
